@@ -144,6 +144,7 @@ struct Core {
     max_depth: u64,
     max_preempt_seen: u32,
     next_donation: u64,
+    replay_note: Option<String>,
 }
 
 impl Core {
@@ -168,6 +169,7 @@ impl Core {
             max_depth: 0,
             max_preempt_seen: 0,
             next_donation: DONATE_EVERY,
+            replay_note: None,
         }
     }
 
@@ -253,15 +255,23 @@ impl Core {
         }
         let d = self.depth;
         let choice: u8;
-        if let Some(list) = &self.replay {
+        if let Some(list) = self.replay.clone() {
             // explicit schedule: follow it, then canonical defaults
             if d < list.len() {
                 let want = list[d];
                 if !ids[..n].contains(&want) {
-                    return self.diverge(format!(
-                        "replay: task {want} is not runnable at step {d} (runnable {:?})",
-                        &ids[..n]
-                    ));
+                    // the code under test changed since the schedule was recorded: say so and go on
+                    // with canonical choices (a replay against a repaired tree must still end)
+                    if self.replay_note.is_none() {
+                        self.replay_note = Some(format!(
+                            "recorded schedule not feasible on this tree: task {want} is not runnable at step {d} (runnable {:?}); continued with default choices",
+                            &ids[..n]
+                        ));
+                    }
+                    self.replay = Some(list[..d].to_vec());
+                    self.depth += 1;
+                    self.sched.push(opts[0]);
+                    return Some(TaskId::from(opts[0] as usize));
                 }
                 choice = want;
             } else {
@@ -361,6 +371,7 @@ pub struct Accum {
     pub viol: BTreeMap<String, FoundV>,
     pub samples: Vec<Value>,
     pub fatal: Option<String>,
+    pub notes: Vec<String>,
 }
 
 #[derive(Clone)]
@@ -404,6 +415,7 @@ impl Accum {
         if self.fatal.is_none() {
             self.fatal = o.fatal;
         }
+        self.notes.extend(o.notes);
     }
 }
 
@@ -527,6 +539,9 @@ impl Shared {
         acc.max_preempt = core.max_preempt_seen;
         if acc.fatal.is_none() {
             acc.fatal = core.fatal.clone();
+        }
+        if let Some(n) = &core.replay_note {
+            acc.notes.push(n.clone());
         }
         if acc.fatal.is_some() {
             if let Some(p) = &self.pool {
